@@ -1,6 +1,122 @@
 import OtelVerif.Common.Line
 import OtelVerif.Model.C20
-/-! driver for C20 (stub) -/
-def main : IO UInt32 := do
-  IO.eprintln "drv_c20: not built yet"
-  return 2
+/-! driver for C20: model `c20-runloop` (the repaired `Shutdown()` guard, `Variant.fixed`) -/
+open OtelVerif OtelVerif.Line OtelVerif.C20
+
+namespace OtelVerif.Drivers.C20
+
+structure DS where
+  s : Option S := some init          -- none = the model refused a label of the history
+  why : String := ""
+  impl : List TEv := []              -- reversed: the implementation's event log
+  badTr : Option String := none
+
+def variant : Variant := .fixed
+
+/-- pcs at which the harness cannot park the Run goroutine: infallible statements, executed at once -/
+def autoPc : Pc → Bool
+  | .setup1 _ | .setup4 _ | .initFail | .reload1 | .shut1 | .shut4 => true
+  | _ => false
+
+def auto (fuel : Nat) (s : S) : S :=
+  match fuel with
+  | 0 => s
+  | n + 1 => if autoPc s.pc then (match fire variant s (.step true) with | some s' => auto n s' | none => s) else s
+
+def fires (s : S) (ls : List Label) : Option S := ls.foldlM (fun s l => fire variant s l) s
+
+def isort (l : List Nat) : List Nat := l.foldl (fun acc x => (acc.filter (· ≤ x)) ++ [x] ++ (acc.filter (· > x))) []
+
+def showNats (l : List Nat) : String := if l.isEmpty then "-" else ",".intercalate (l.map toString)
+
+def showObs (s : S) : String :=
+  let gens := isort s.sdLog.eraseDups
+  let sd := if gens.isEmpty then "-" else ",".intercalate (gens.map (fun g => s!"{g}:{s.sdLog.count g}"))
+  let ret := match s.ret, s.panic with
+    | _, true => "panic"
+    | some true, _ => "ok"
+    | some false, _ => "err"
+    | none, _ => "-"
+  s!"obs st={s.st.name} closed={if s.chanClosed then 1 else 0} gen={s.gen} live={showNats (isort s.live)} sd={sd} prov={s.provSd} ret={ret}"
+
+def okOf : String → Option Bool
+  | "ok" => some true | "fail" => some false | "getfail" => some false | "newfail" => some false | _ => none
+
+/-- one harness op = a list of labels, then the infallible statements up to the next parking point -/
+def opLabels (s : S) : List String → Option (List Label)
+  | ["run"] => some [.begin]
+  | ["build", o] => if s.pc = .setup2 true ∨ s.pc = .setup2 false then (okOf o).map (fun b => [.step b]) else none
+  | ["start", o] => if s.pc = .setup3 true ∨ s.pc = .setup3 false then (okOf o).map (fun b => [.step b]) else none
+  | ["sdold", o] => if s.pc = .reload2 then (okOf o).map (fun b => [.step b]) else none
+  | ["sdnew", o] => if s.pc = .setupSd true ∨ s.pc = .setupSd false then (okOf o).map (fun b => [.step b]) else none
+  | ["sdfinal", o] => if s.pc = .shut3 then (okOf o).map (fun b => [.step b]) else none
+  | ["prov", o] => if s.pc = .shut2 then (okOf o).map (fun b => [.step b]) else none
+  | ["pick", e] => (Ev.ofName e).map (fun e => [.pick e])
+  | ["post", e] => (Ev.ofName e).map (fun e => [.post e])
+  | ["cancel"] => some [.cancel]
+  | "scen" :: _ => some []          -- race cases: scenario descriptor only (monitored, not replayed on the model)
+  | _ => none
+
+def shutdownCalls (s : S) : Nat → Option S
+  | 0 => some s
+  | k + 1 => do
+    let s1 ← fire variant s .call
+    let s2 ← if s1.closers > 0 then fire variant s1 .close else some s1
+    shutdownCalls s2 k
+
+def compIdx : String → Nat
+  | "recv" => 0 | "exp" => 1 | "ext" => 2 | _ => 9
+
+def stOf : String → Option CState
+  | "Starting" => some .starting | "Running" => some .running | "Closing" => some .closing | "Closed" => some .closed | _ => none
+
+def handler : Handler DS where
+  init := {}
+  onOp := fun d toks =>
+    let noobs := toks.getLast? = some "noobs"
+    let toks := if noobs then toks.dropLast else toks
+    match d.s with
+    | none => (d, if noobs then [] else ["obs model-stuck " ++ d.why])
+    | some s =>
+      let r : Option S :=
+        match toks with
+        | ["shutdown", k] => k.toNat?.bind (shutdownCalls s)
+        | _ => (opLabels s toks).bind (fires s)
+      match r with
+      | none => ({ d with s := none, why := "-".intercalate toks }, if noobs then [] else ["obs bad-op-or-label-not-enabled " ++ "-".intercalate toks])
+      | some s' =>
+        let s' := auto 8 s'
+        ({ d with s := some s' }, if noobs then [] else [showObs s'])
+  onObs := fun d toks =>
+    match toks with
+    | ["tr", "st", x] => match stOf x with
+      | some c => { d with impl := .st c :: d.impl }
+      | none => { d with badTr := some x }
+    | ["tr", "c", g, n] => match g.toNat? with
+      | some g => { d with impl := .created g (compIdx n) :: d.impl }
+      | none => { d with badTr := some g }
+    | ["tr", "s", g, n, "ok"] => match g.toNat? with
+      | some g => { d with impl := .started g (compIdx n) :: d.impl }
+      | none => { d with badTr := some g }
+    | ["tr", "x", g, n, _] => match g.toNat? with
+      | some g => { d with impl := .shut g (compIdx n) :: d.impl }
+      | none => { d with badTr := some g }
+    | ["tr", "prov"] => { d with impl := .prov :: d.impl }
+    | "tr" :: "call" :: _ => { d with impl := .call :: d.impl }
+    | ["tr", "quiet"] => { d with impl := .quiet :: d.impl }
+    | ["tr", "stop", _] => { d with impl := .stop :: d.impl }
+    | ["tr", "stopev", _] => { d with impl := .stop :: d.impl }
+    | ["tr", "ret", r] => { d with impl := .ret (r == "ok") :: d.impl }
+    | _ => d
+  onEnd := fun d =>
+    match d.badTr with
+    | some b => [s!"prop trace=FAIL sig=C20/harness/unparsable-trace {b}"]
+    | none =>
+      match checkE d.impl.reverse with
+      | .ok _ => ["prop trace=ok"]
+      | .error b => [s!"prop trace=FAIL sig={b.sig}"]
+
+end OtelVerif.Drivers.C20
+
+def main : IO UInt32 :=
+  runMulti [("c20-runloop", run OtelVerif.Drivers.C20.handler), ("c20-race", run OtelVerif.Drivers.C20.handler)]
